@@ -379,30 +379,38 @@ def run(args) -> int:
     core = mlib.core_sentences()
     d2 = mlib.depth2_sentences() if args.tier == 'thorough' else []
     cases = []
+    shared = dict(core=core, core40=core[:40], small=core[:5] + core[5:15:2] + core[15:27:2] + core[27:123:9] + core[-8:])
     for L in logics:
         hs = histories(rng, L, args.tier)
+        n_exh = 0
+        if args.tier == 'thorough':
+            n_exh = 1 + len(mlib.small_pool(L)) + len(mlib.small_pool(L)) ** 2     # the exhaustive prefix
         for k, ops in enumerate(hs):
-            sents = list(core) if (args.tier == 'quick' or k % 4 == 0) else list(core[:40])
-            sents += [mlib.rand_sentence(rng, rng.choice([2, 3, 4])) for _ in range(12)]
+            if k < n_exh and len(ops) == 2:
+                sh, extra = 'small', []          # state-machine coverage: every order of two calls
+            else:
+                sh = 'core' if (args.tier == 'quick' or k % 4 == 0) else 'core40'
+                extra = [mlib.rand_sentence(rng, rng.choice([2, 3, 4])) for _ in range(12)]
+                if d2:
+                    per = max(1, len(d2) // max(1, len(hs) - n_exh)) + 1
+                    extra += d2[(k * per) % len(d2):][:per]
             if L['hooks']['finish'] == 'cpl':
-                sents += classical_sentences()
-            if d2:
-                per = max(1, len(d2) // len(hs)) + 1
-                sents += d2[(k * per) % len(d2):][:per]
-            cases.append(dict(logic=L['name'], ops=ops, sents=sents, worlds=mlib.worlds_of(L, ops)))
+                extra += classical_sentences()
+            cases.append(dict(logic=L['name'], ops=ops, sents=shared[sh] + extra, shared=sh, n_shared=len(shared[sh]),
+                              worlds=mlib.worlds_of(L, ops)))
             chk.count('history_length', str(len(ops)))
             for op in ops:
                 chk.count('op', op[0])
     by_name = {L['name']: L for L in logics}
-    orders = [0, 2] if args.tier == 'quick' else [0, 1, 2, 5]
+    orders = [0, 2] if args.tier == 'quick' else [0, 1, 5]
     # implementation runs (4 processes)
     from concurrent.futures import ThreadPoolExecutor
     results = {}
     for order in orders:
-        sub = cases if order == 0 else [c for i, c in enumerate(cases)
-                                        if by_name[c['logic']]['hooks']['finish'] == 'cpl' or i % 3 == 0]
+        step = 3 if args.tier == 'quick' else 5
         idx = list(range(len(cases))) if order == 0 else [i for i, c in enumerate(cases)
-                                                          if by_name[c['logic']]['hooks']['finish'] == 'cpl' or i % 3 == 0]
+                                                          if by_name[c['logic']]['hooks']['finish'] == 'cpl' or i % step == 0]
+        sub = [cases[i] for i in idx]
         parts = list(chunks(list(zip(idx, sub)), max(1, len(sub) // 8 + 1)))
         with ThreadPoolExecutor(max_workers=mlib.WORKERS) as ex:
             outs = list(ex.map(lambda part: probe_json('probe_model.py', ['run'], order=order,
@@ -413,7 +421,8 @@ def run(args) -> int:
         chk.count('order_seed', str(order), len(sub))
     # Coq runs: one per case, plus one per (classical case, order) since the orders are inputs there
     exprs, keys = [], []
-    hdr = mlib.HEADER + 'Require Import GC08.Logics.\n'
+    hdr = mlib.HEADER + 'Require Import GC08.Logics.\n' + ''.join(
+        f'Definition sents_{k} : list sent := {mlib.clist(mlib.csent(x) for x in v)}.\n' for k, v in shared.items())
     for (i, order), r in sorted(results.items()):
         c = cases[i]
         L = by_name[c['logic']]
@@ -423,7 +432,8 @@ def run(args) -> int:
         fn = 'run_case_fixed' if (classical and L.get('classical_fixed')) else 'run_case'
         exprs.append(f"{fn} ML_{coqgen.ident(c['logic'])} {mlib.clist(mlib.cop(o) for o in c['ops'])} "
                      f"{mlib.cnats(r['cord'])} {mlib.cpord(r['pord'])} "
-                     f"{mlib.clist(mlib.csent(s) for s in c['sents'])} {mlib.cnats(c['worlds'])}")
+                     f"(sents_{c['shared']} ++ {mlib.clist(mlib.csent(s) for s in c['sents'][c['n_shared']:])}) "
+                     f"{mlib.cnats(c['worlds'])}")
         keys.append((i, order))
     answers = mlib.coq_eval(PID, hdr, exprs, name='Cases', shard=max(40, len(exprs) // 16 + 1), timeout=2400)
     coq = {k: mlib.parse_coq_value(a) for k, a in zip(keys, answers)}
